@@ -60,7 +60,7 @@ def simulate(d, name, prog, num, depth=80, seed=1, ops=0, dups=0, kinds=('pause'
                  % (mc, engmodel.def_tla(prog), common.tla(set(kinds))))
     with open(os.path.join(d, mc + '.cfg'), 'w') as fh:
         fh.write('SPECIFICATION MCSpec\nCONSTRAINT TimeBound\nCONSTANT OpBudget = %d\nCONSTANT DupBudget = %d\nCONSTANT NoopOps = FALSE\n'
-                 'CONSTANT OpKinds <- MCOpKinds\nCHECK_DEADLOCK FALSE\n' % (ops, dups))
+                 'CONSTANT OpKinds <- MCOpKinds\nCONSTANT Scheduler = "default"\nCHECK_DEADLOCK FALSE\n' % (ops, dups))
     sd = os.path.join(d, 'sim_' + mc)
     shutil.rmtree(sd, ignore_errors=True)
     os.makedirs(sd)
@@ -88,7 +88,7 @@ def probe(d, name, prog, formula, ops=0, dups=0, kinds=('pause', 'resume', 'stop
                  % (mc, engmodel.def_tla(prog), common.tla(set(kinds)), formula))
     with open(os.path.join(d, mc + '.cfg'), 'w') as fh:
         fh.write('SPECIFICATION MCSpec\nCONSTRAINT TimeBound\nCONSTANT OpBudget = %d\nCONSTANT DupBudget = %d\nCONSTANT NoopOps = FALSE\n'
-                 'CONSTANT OpKinds <- MCOpKinds\nINVARIANT NotReached\nCHECK_DEADLOCK FALSE\n' % (ops, dups))
+                 'CONSTANT OpKinds <- MCOpKinds\nCONSTANT Scheduler = "default"\nINVARIANT NotReached\nCHECK_DEADLOCK FALSE\n' % (ops, dups))
     r = common.run_tlc(os.path.join(d, mc + '.tla'), os.path.join(d, mc + '.cfg'), timeout=timeout, metatag=mc)
     if 'NotReached' not in r.inv_violations:
         return None, r
